@@ -50,7 +50,8 @@ GeomDocs ==
 \* features
 Props == {Null, Obj(<<>>), Obj(<< <<"a", Num(1)>>, <<"b", Str("x")>>, <<"c", Null>>, <<"d", Arr(<<Num(1), Obj(<< <<"e", <<"b", TRUE>>>> >>)>>)>> >>)}
 FGeoms == {NOGEOM, G("PT", "XY", C("XY")), G("PG", "XYZ", <<<<C("XYZ"), D("XYZ"), C("XYZ")>>>>), G("GC", "No", <<G("LS", "XY", <<C("XY"), D("XY")>>)>>)}
-BBoxes == {<<>>, <<1, 2, 3, 4>>, <<1, 2, 3, 4, 5, 6>>}
+\* incl. boxes whose west edge is east of the east edge (RFC 7946 5.2: a box crossing the antimeridian)
+BBoxes == {<<>>, <<1, 2, 3, 4>>, <<1, 2, 3, 4, 5, 6>>, <<3, 2, 1, 4>>, <<5, 2, 3, 4, 1, 6>>}
 Feats == {[id |-> i, bbox |-> b, geom |-> g, props |-> p] : i \in {"", "abc", "12"}, b \in BBoxes, g \in FGeoms, p \in Props}
 SmallFeats == {[id |-> i, bbox |-> b, geom |-> g, props |-> Null] : i \in {"", "7"}, b \in {<<>>, <<1, 2, 3, 4>>}, g \in {NOGEOM, G("PT", "XY", C("XY"))}}
 FCs == {[bbox |-> b, features |-> fs] : b \in BBoxes, fs \in UNION {[1..k -> SmallFeats] : k \in 0..2}}
@@ -61,7 +62,7 @@ FObj(id, bb, ge, pr, ty) == Obj( (IF bb = <<"absent">> THEN <<>> ELSE << <<"bbox
 Abs == <<"absent">>
 Ids == {Abs, Null, Str("abc"), Num(12), <<"b", TRUE>>, Arr(<<>>), Obj(<<>>)}
 BBs == {Abs, Null, Arr(<<>>), Arr(<<Num(1), Num(2), Num(3), Num(4)>>), Arr(<<Num(1), Num(2), Num(3), Num(4), Num(5), Num(6)>>),
-        Arr(<<Num(1), Num(2), Num(3)>>), Arr(<<Num(1), Null, Num(3), Num(4)>>), Arr(<<Num(1), Str("x"), Num(3), Num(4)>>), Num(4), Str("x")}
+        Arr(<<Num(1), Num(2), Num(3)>>), Arr(<<Num(1), Null, Num(3), Num(4)>>), Arr(<<Num(3), Num(2), Num(1), Num(4)>>), Arr(<<Num(1), Str("x"), Num(3), Num(4)>>), Num(4), Str("x")}
 Ges == {Abs, Null, PtDoc, Num(1), Arr(<<>>), Obj(<<>>), Doc("Point", Arr(<<Num(1)>>)), Obj(<< <<"type", Num(5)>> >>),
         Obj(<< <<"geometries", Arr(<<PtDoc>>)>>, <<"type", Str("GeometryCollection")>> >>)}
 Prs == {Abs, Null, Obj(<<>>), Obj(<< <<"k", Arr(<<Num(1), Null>>)>> >>), Arr(<<>>), Num(1), Str("x")}
